@@ -416,7 +416,7 @@ func vfSWCheck(sc vfSWScheme, s1, s2 []uint8, setGaps, enum, masked bool) {
 	}
 	r := vfSWRun(sc, s1, s2, setGaps)
 	verifReach("aligned")
-	verifObserve("input and rows", string(s1), string(s2), string(r.r1), string(r.r2), r.st1, r.en1, r.st2, r.en2)
+	verifObserve("shape", len(r.r1), len(r.r2), r.st1, r.en1, r.st2, r.en2)
 	vfSWStructure(r, s1, s2)
 	if opt > 0 {
 		verifReach("positive optimum")
@@ -512,4 +512,102 @@ func H_C09_sw_mm_masked() {
 	sc := vfSWSymScheme()
 	s1, s2 := vfSWSymPair(sc.mode, l1, l2)
 	vfSWCheck(sc, s1, s2, true, false, true)
+}
+
+// ---------------------------------------------------------------- built-in matrices, symbolic gap penalties
+
+// vfSWMatrixScheme: built-in matrix (no SetScore) with symbolic gap penalties.
+func vfSWMatrixScheme(mode int) vfSWScheme {
+	var sc vfSWScheme
+	sc.mode = mode
+	vfSWSymGaps(&sc)
+	return sc
+}
+
+// H_C09_sw_dnafull: built-in EDNAFULL matrix (selected by the alphabet detection), symbolic gap penalties, all claims of C09.
+// bounds: lengths l1,l2 in 1..3; residues symbolic over {A,C,G,T,N}; gapopen<=gapextend<0 any multiples of 1/2 in [-8,0); enumeration cross-check for lengths <=2
+// outside: lengths >3 (H_C09_sw_dnafull4); other IUPAC codes, lower case; non-dyadic penalties
+// assumes: reference substitution scores from the published EDNAFULL/NUC.4.4 (5/-4, N: -2, N/N: -1)
+func H_C09_sw_dnafull() {
+	l1, l2 := vfSWLengths(1, 2)
+	sc := vfSWMatrixScheme(vfSWModeDNAfull)
+	s1, s2 := vfSWSymPair(sc.mode, l1, l2)
+	vfSWCheck(sc, s1, s2, true, l1 <= 2 && l2 <= 2, false)
+}
+
+// H_C09_sw_dnafull4: as H_C09_sw_dnafull for the length pairs with max(l1,l2)=4.
+// bounds: lengths l1,l2 in 1..4 with max 4
+// outside: lengths >4
+//verif: tier=thorough
+func H_C09_sw_dnafull4() {
+	l1, l2 := vfSWLengths(4, 4)
+	sc := vfSWMatrixScheme(vfSWModeDNAfull)
+	s1, s2 := vfSWSymPair(sc.mode, l1, l2)
+	vfSWCheck(sc, s1, s2, true, false, false)
+}
+
+// H_C09_sw_blosum: built-in BLOSUM62 matrix (selected by the alphabet detection), symbolic gap penalties, all claims of C09.
+// bounds: lengths l1,l2 in 1..3; residues symbolic over {W,E,I,L,F}, not all of them W; gapopen<=gapextend<0 any multiples of 1/2 in [-8,0); enumeration cross-check for lengths <=2
+// outside: lengths >3 (H_C09_sw_blosum4); the other 19 BLOSUM62 letters; two all-W sequences (detected as nucleotides); lower case
+// assumes: reference substitution scores from the published BLOSUM62
+func H_C09_sw_blosum() {
+	l1, l2 := vfSWLengths(1, 2)
+	sc := vfSWMatrixScheme(vfSWModeBlosum)
+	s1, s2 := vfSWSymPair(sc.mode, l1, l2)
+	vfSWCheck(sc, s1, s2, true, l1 <= 2 && l2 <= 2, false)
+}
+
+// H_C09_sw_blosum4: as H_C09_sw_blosum for the length pairs with max(l1,l2)=4.
+// bounds: lengths l1,l2 in 1..4 with max 4
+// outside: lengths >4
+//verif: tier=thorough
+func H_C09_sw_blosum4() {
+	l1, l2 := vfSWLengths(4, 4)
+	sc := vfSWMatrixScheme(vfSWModeBlosum)
+	s1, s2 := vfSWSymPair(sc.mode, l1, l2)
+	vfSWCheck(sc, s1, s2, true, false, false)
+}
+
+// H_C09_sw_matrix_masked: built-in matrices outside the regions of the known defects D1-D3 (see vfSWMask).
+// bounds: lengths l1,l2 in 2..3; mode EDNAFULL over {A,C,G,T,N} or BLOSUM62 over {W,E,I,L,F}; symbolic gap penalties as above
+// outside: D1-D3 regions as in H_C09_sw_mm_masked
+// assumes: see vfSWMask
+func H_C09_sw_matrix_masked() {
+	mode := nondetRange(vfSWModeDNAfull, vfSWModeBlosum)
+	l1, l2 := vfSWLengths(2, 3)
+	assume(l1 >= 2 && l2 >= 2)
+	sc := vfSWMatrixScheme(mode)
+	s1, s2 := vfSWSymPair(sc.mode, l1, l2)
+	vfSWCheck(sc, s1, s2, true, false, true)
+}
+
+// ---------------------------------------------------------------- defaults
+
+// vfSWDefaults: the documented defaults of NewPwAligner: built-in matrix, gap open -10, gap extend -0.5.
+func vfSWDefaults(mode int) vfSWScheme {
+	return vfSWScheme{mode: mode, open: -10, ext: -0.5}
+}
+
+// H_C09_sw_defaults: no Set* call at all: built-in matrix by alphabet detection, gap open -10, gap extend -0.5.
+// bounds: lengths l1,l2 in 1..3; EDNAFULL over {A,C,G,T,N} or BLOSUM62 over {W,E,I,L,F}
+// outside: lengths >3 (H_C09_sw_defaults4)
+// assumes: the default penalties are -10 / -0.5 (EMBOSS water defaults, cmd/sw.go flags)
+func H_C09_sw_defaults() {
+	mode := nondetRange(vfSWModeDNAfull, vfSWModeBlosum)
+	l1, l2 := vfSWLengths(1, 2)
+	sc := vfSWDefaults(mode)
+	s1, s2 := vfSWSymPair(sc.mode, l1, l2)
+	vfSWCheck(sc, s1, s2, false, l1 <= 2 && l2 <= 2, false)
+}
+
+// H_C09_sw_defaults4: as H_C09_sw_defaults for the length pairs with max(l1,l2)=4.
+// bounds: lengths l1,l2 in 1..4 with max 4
+// outside: lengths >4
+//verif: tier=thorough
+func H_C09_sw_defaults4() {
+	mode := nondetRange(vfSWModeDNAfull, vfSWModeBlosum)
+	l1, l2 := vfSWLengths(4, 4)
+	sc := vfSWDefaults(mode)
+	s1, s2 := vfSWSymPair(sc.mode, l1, l2)
+	vfSWCheck(sc, s1, s2, false, false, false)
 }
